@@ -438,8 +438,8 @@ def mon_run_ok(prop):
         sig = f"raised:{e['root_class']}:{e['root_msg'][:60]}"
         if "capital lost" in e["root_msg"] and "higher than productive capital" in e["root_msg"]:
             return []   # the documented rejection (C07), not an internal error
-        if no_supplier_condition(trace):
-            sig = "no-supplier-in-rebuilding-sector"
+        if "Cannot distribute the rebuilding demand" in e["root_msg"] and no_supplier_condition(trace):
+            return []   # documented rejection: a rebuilding sector does not supply an affected client
         return [_fail(prop, trace, trace.get("n_steps"), f"run raised {e['root_class']}: {e['root_msg'][:160]} (stage {e.get('stage')})", sig=sig)]
     return mon
 
